@@ -12,7 +12,7 @@ ANCHORS = ["pyoma2.functions.fdd:SD_PreGER", "pyoma2.functions.fdd:SD_est", "pyo
 REQUIRED_MONITORS = ["one-recording@SD_PreGER", "one-recording@FDD_MS", "one-recording@EFDD_MS", "one-recording@pLSCF_MS",
                      "general-blocks@SD_PreGER", "gain-metamorphic@SD_PreGER"]
 ALL_STATES = [f"{m}|pov={p:g}" for m in ("per", "cor") for p in (0, 0.25, 0.5, 0.75)] + ["refs listed out of order", "4 setups", "3 references"]
-REQUIRED_STATES = ["per|pov=0", "per|pov=0.25", "per|pov=0.75", "cor|pov=0.25", "refs listed out of order"]
+REQUIRED_STATES = ["per|pov=0", "per|pov=0.25", "per|pov=0.75", "cor|pov=0.25", "refs listed out of order", "recording amplitude < 1e-4", "one setup with gain < 1e-3"]
 RULE = ("one coloured-noise recording (2..9 channels, >= 4 segments) cut into 2..4 setups sharing 1..3 references at arbitrary positions; "
         "merged matrix compared line by line with SD_est(all channels in [ref|rov_1|rov_2..] order, ref) at the same nxseg/pov/estimator "
         "(tolerance 1e-9*cond(G_refref), lines with cond > 1e8 not judged); independent recordings: blocks recomputed from per-setup SD_est; "
@@ -78,6 +78,11 @@ def run_one_fn(ctx, rng):
     nset, nref, nrov, ndof, chan_glob, reflist = draw_layout(rng)
     nx, pov, method, N, fs = draw_params(rng)
     X = gen.coloured(rng, ndof, N)
+    if rng.random() < 0.4:
+        amp = float(10 ** rng.uniform(-7, 4))  # records in other units: the relation is homogeneous in the amplitude
+        X = X * amp
+        if amp < 1e-4:
+            ctx.state("recording amplitude < 1e-4")
     datasets = [X[cg].T.copy() for cg in chan_glob]
     Y = G_.pre_multisetup(datasets, [list(r) for r in reflist])
     f, S = fdd.SD_PreGER(Y, fs=fs, nxseg=nx, pov=pov, method=method)
@@ -113,6 +118,9 @@ def run_general(ctx, rng):
     nset, nref, nrov, ndof, chan_glob, reflist = draw_layout(rng)
     nx, pov, method, N, fs = draw_params(rng)
     gains = [float(10 ** rng.uniform(-2, 2)) * rng.choice([-1, 1]) for _ in range(nset)]
+    if rng.random() < 0.3:
+        gains[int(rng.integers(0, nset))] *= float(10 ** rng.uniform(-5, -3))  # one setup stored in much smaller units
+        ctx.state("one setup with gain < 1e-3")
     # independent recordings of one coloured process family per setup (own length)
     recs = [gen.coloured(rng, ndof, int(N * rng.uniform(1, 1.5))) for _ in range(nset)]
     datasets = [g * R[cg].T.copy() for g, R, cg in zip(gains, recs, chan_glob)]
